@@ -83,7 +83,10 @@ def gen(seed: int, tier: str) -> dict[str, Any]:
     cfg["stop_via"] = "queue" if stop_mode in ("early", "immediately") and rng.random() < 0.4 else "xknx"
     if cfg["stop_via"] == "xknx" and rng.random() < 0.25:
         # the same XKNX object is started again after stop() returned and sends a few more telegrams
-        cfg["restart"] = {"n": rng.choice([1, 2, 4]), "gap": rng.choice([0.0, 0.001, 0.3])}
+        cfg["restart"] = {"n": rng.choice([1, 2, 4]), "gap": rng.choice([0.0, 0.001, 0.3]),
+                          # stop() is called once more on the stopped object before it is started again (e.g. the user's own
+                          # clean-up after `async with XKNX()` already stopped it)
+                          "second_stop": rng.random() < 0.4}
     return {"seed": seed, "tier": "S", "config": cfg, "ops": ops}
 
 
@@ -194,6 +197,13 @@ def run(plan: dict[str, Any]) -> dict[str, Any]:
         elif cfg.get("restart"):
             rs = cfg["restart"]
             await asyncio.sleep(rs["gap"])
+            if rs.get("second_stop"):
+                try:
+                    async with asyncio.timeout(10):
+                        await xknx.stop()
+                except TimeoutError:
+                    info["second_stop_hung"] = True
+                R.extra_faults["stop_called_on_stopped_object"] += 1
             await xknx.start()
             for j in range(rs["n"]):
                 tg = Telegram(destination_address=GroupAddress(GA_BASE + (j & 3)),
@@ -273,6 +283,8 @@ def oracle(R, plan, stub, info, seen_cb, seen_dev, pid_of):
     if cfg.get("restart") and info["stop_ret"] is not None:
         R.extra_faults["restart_same_object"] += 1
         sent2 = [p for p in ho_ids if p is not None and p >= 1000]
+        if info.get("second_stop_hung"):
+            R.violate("C33.liveness", "stop-of-a-stopped-object-did-not-return", "second stop() call hung")
         if info.get("stop2_ret") is None:
             R.violate("C33.liveness", "stop-did-not-return-after-restart",
                       f"second stop() of the same XKNX object did not return; unfinished={info.get('unfinished2')}, "
